@@ -70,6 +70,7 @@ class Arg:
         self.card = None          # None = default; ('none',) | ('max',n) | ('exact',n) | ('range',a,b)
         self.checks = []          # ('lower',x) ('upper',x) ('range',a,b) ('values',[...]) ('minlen',n) ('maxlen',n) ('pattern',re)
         self.formats = []         # 'upper' | 'lower'
+        self.posformats = []      # (value index, 'upper' | 'lower'): addFormatPos()
         self.sep = None
         self.clear = self.sort = self.unique = self.uniqueerr = self.multi = False
         self.hidden = self.deprecated = False
@@ -251,8 +252,9 @@ def check_elem(arg, text, etype):
     return True
 
 
-def fmt_elem(arg, text):
-    for f in arg.formats:
+def fmt_elem(arg, text, pos=None):
+    """general formats, then (pos given) the formats added for that value position"""
+    for f in list(arg.formats) + [f for i, f in arg.posformats if pos is not None and i == pos]:
         # the C locale: ASCII letters only
         if f == "upper":
             text = "".join(ch.upper() if "a" <= ch <= "z" else ch for ch in text)
@@ -668,6 +670,8 @@ def scenario_text(sid, tag, cfg, argv, prog="prog"):
                 o.append("pattern=" + hx(c[1]))
         for f in a.formats:
             o.append("fmt=" + f)
+        for i, f in a.posformats:
+            o.append("fmtpos=%d:%s" % (i, f))
         if a.sep:
             o.append("sep=%d" % ord(a.sep))
         if a.sort:
